@@ -43,7 +43,7 @@ REQUIRED = ["set_pilot_judged", "accepted", "rejected", "regime:EVSE", "regime:D
 BUDGET_S = {"quick": 200, "thorough": 2400}
 OFFS = [0, 1e-6, 5e-4, 9.99e-4, 1.001e-3, 2e-3, 0.5, 3]
 
-CUR = {"obs": None, "deep": False}
+CUR = {"obs": None, "deep": False, "desc": None, "desc_for": None}
 _WRAPS = []
 
 
@@ -80,7 +80,7 @@ def _after(ctx, result, exc):
         return
     evse, pilot, state, deep = ctx
     from acnportal.acnsim.models import InvalidRateError
-    d = _desc_of(evse)
+    d = CUR.get("desc") if CUR.get("desc_for") is evse else _desc_of(evse)  # direct cases: what was asked for, not what the object advertises
     try:
         pf = float(pilot)
     except Exception:
@@ -146,7 +146,8 @@ def _rand_evse(rng):
         if rng.random() < 0.5:
             rates += [rates[0]]
         rng.shuffle(rates)
-    return {"t": "FR", "rates": rates}
+    form = rng.choice(["list", "list", "generator", "map", "iter", "tuple", "array"])
+    return {"t": "FR", "rates": rates, "form": form}
 
 
 def _boundaries(e):
@@ -175,6 +176,7 @@ def _run_direct(case, obs):
     e = case["evse"]
     rng = random.Random(case["seed"])
     evse = build.build_evse("s", e)
+    CUR["desc"], CUR["desc_for"] = e, evse
     car = None
     if case["with_ev"]:
         car = EV(0, 10, 20, "s", "x", Linear2StageBattery(60, 30, 7, transition_soc=0.6))
@@ -332,6 +334,7 @@ def run_case(case, obs):
     finally:
         CUR["obs"] = None
         CUR["deep"] = False
+        CUR["desc"] = CUR["desc_for"] = None
 
 
 def classify(v):
